@@ -187,6 +187,8 @@ class ManagedBSE:
         if kind in ('drop', 'take'):
             objs = list(th.local['objs']); oroot = objs.pop(a[2]); th.local['objs'] = tuple(objs)
             obj = st.heap.pop(oroot); oid = s.obj_id(st, obj)
+            if st.threads['C'].stack and (st.threads['C'].local.get('op') or ((None,),))[0][0] == 'resize' and 'shrink_overlaps_release' not in st.gget('flags', ()):
+                st.gset('flags', st.gget('flags', ()) + ('shrink_overlaps_release',))
             if kind == 'drop':
                 s.note_return(st, oid)
                 if st.gget('close_started') and not st.gget('closed_ret'): st.gset('close_overlap', True)
@@ -306,6 +308,9 @@ class ManagedBSE:
         cm = s.cur_max(st); live = len(s.live_ids(st)); fl = st.gget('flags', ())
         if s.M.feasible(st, z(binop('Lt', I(n), cm))):
             if s.M.feasible(st, z(binop('Lt', I(live), cm))) and 'shrink_unused' not in fl: fl = fl + ('shrink_unused',)
+            if s.semaphore(st).f[3] and 'shrink_assigned_waiter' not in fl: fl = fl + ('shrink_assigned_waiter',)
+            if any(st.threads[x].stack and (st.threads[x].local.get('op') or ((None,),))[0][0] in ('drop', 'take') for x in s.tasks) and 'shrink_overlaps_release' not in fl:
+                fl = fl + ('shrink_overlaps_release',)
         if s.M.feasible(st, z(binop('Gt', I(n), cm))):
             if s.M.feasible(st, z(binop('Gt', I(live), cm))) and 'grow_with_surplus' not in fl: fl = fl + ('grow_with_surplus',)
         st.gset('flags', fl)
@@ -433,6 +438,8 @@ class ManagedBSE:
         fl = st.gget('flags', ())
         if 'shrink_unused' in fl: d['known'] = 'K-C07a'
         elif 'grow_with_surplus' in fl: d['known'] = 'K-C07b'
+        elif 'shrink_assigned_waiter' in fl: d['known'] = 'K-C07c'
+        elif 'shrink_overlaps_release' in fl: d['known'] = 'K-C07d'
         return d
 
     def check_resized(s, st):
@@ -751,7 +758,8 @@ def _digest(s, st0, a, st):
         live = len(s.live_ids(st))
         if not st0.gget('closed_ret') or a[0] == 'close':
             if live > n and idleq:
-                vio('C07' if a[0] == 'resize' else 'C06', f'after {a[0]}({n}) {live} objects exist and {len(idleq)} idle objects were kept')
+                d_ = s.vio('C07' if a[0] == 'resize' else 'C06', f'after {a[0]}({n}) {live} objects exist and {len(idleq)} idle objects were kept', st)
+                V.append(s.c07_known(st, d_) if a[0] == 'resize' else d_)
         elif a[0] == 'resize':
             if len(s.live_ids(st0)) != live: vio('C06', 'resize() on a closed pool changed the pool')
     st.gset('trail', trail); st.gset('idleq', tuple(idleq)); st.gset('calls', calls); st.gset('met_shadow', shadow)
